@@ -384,6 +384,27 @@ def _update_via_caller(via, origin, root, v):
         team.team_path(cfg)
 
 
+def _history_epoch(ctx, case, k, ep, origin, root, rdir, remote_seen, local_seen):
+    from esrally.utils import repo
+
+    retired = bool(ep["delete"]) or any(e["delete"] for e in case["epochs"][:k])
+    via = ep.get("via", "direct")
+    if via == "direct":
+        r = repo.RallyRepository(origin, root, "r", "tracks", offline=False, fetch=True)
+        upd = None
+    else:
+        r = None
+        upd = lambda v, via=via: _update_via_caller(via, origin, root, v)
+    _update_and_compare(ctx, r, rdir, True, remote_seen, local_seen, case["tags"], ep["v"],
+                        extra_sig=["history", retired, via, ep["v"] is None, bool(ep.get("unreachable"))], update=upd)
+    ctx.count("history-via:" + via)
+    ctx.count("history-epochs")
+    if retired:
+        ctx.count("history-epochs-after-a-branch-was-retired-upstream")
+    if ep.get("unreachable"):
+        ctx.count("history-epochs-with-the-upstream-unreachable")
+
+
 def gen_repo_history(ctx):
     """state carried between Rally invocations: one clone, an upstream whose branch set changes (branches added, retired,
     re-created) between invocations, a new RallyRepository (fetch + update) per invocation"""
@@ -413,7 +434,10 @@ def gen_repo_history(ctx):
             if rng.random() < 0.2:
                 v = None  # the version is unknown (no distribution version configured): master
             # who asks: RallyRepository.update itself, or one of its two callers with a configuration object
-            epochs.append({"add": add, "delete": delete, "v": v, "via": rng.choice(["direct", "direct", "track-repository", "team-repository"])})
+            epochs.append({"add": add, "delete": delete, "v": v, "via": rng.choice(["direct", "direct", "track-repository", "team-repository"]),
+                           # the upstream repository cannot be reached during this invocation (fetch fails, Rally warns and goes on with what the
+                           # clone knows from its last successful fetch)
+                           "unreachable": rng.random() < 0.2})
         tags = []
         for _ in range(rng.randrange(0, 2)):
             t = "v" + gen_branch(rng, weird=0.0)
@@ -445,19 +469,18 @@ def run_repo_history(ctx, case):
             # what the upstream repository and the clone hold now, as git itself tells it
             remote_seen = [b for b in _git(origin, "for-each-ref", "--format=%(refname:short)", "refs/heads").split("\n") if b]
             local_seen = [b for b in _git(rdir, "for-each-ref", "--format=%(refname:short)", "refs/heads").split("\n") if b]
-            retired = bool(ep["delete"]) or any(e["delete"] for e in case["epochs"][:k])
-            via = ep.get("via", "direct")
-            if via == "direct":
-                r = repo.RallyRepository(origin, root, "r", "tracks", offline=False, fetch=True)
-                upd = None
-            else:
-                r = None
-                upd = lambda v, via=via: _update_via_caller(via, origin, root, v)
-            _update_and_compare(ctx, r, rdir, True, remote_seen, local_seen, case["tags"], ep["v"], extra_sig=["history", retired, via, ep["v"] is None], update=upd)
-            ctx.count("history-via:" + via)
-            ctx.count("history-epochs")
-            if retired:
-                ctx.count("history-epochs-after-a-branch-was-retired-upstream")
+            hidden = None
+            if ep.get("unreachable"):
+                # the clone's remote-tracking branches (state of the last successful fetch) are all Rally can know about the upstream
+                remote_seen = [b[len("origin/"):] for b in _git(rdir, "for-each-ref", "--format=%(refname:short)", "refs/remotes/origin").split("\n")
+                               if b.startswith("origin/") and b != "origin/HEAD"]
+                hidden = origin + ".away"
+                os.rename(origin, hidden)
+            try:
+                _history_epoch(ctx, case, k, ep, origin, root, rdir, remote_seen, local_seen)
+            finally:
+                if hidden:
+                    os.rename(hidden, origin)
     finally:
         shutil.rmtree(tmp, ignore_errors=True)
 
